@@ -32,7 +32,8 @@ THEOREMS = {
     "C09": ["damage_before_recovery", "wake_ledgers", "damage_after", "arb_after", "finished_when_zero", "finished_no_loss",
             "linear_range", "convexe_range", "linear_antitone", "convexe_antitone", "linear_zero_at_tau", "linear_zero_after_tau",
             "linear_finished_at_tau", "rounded_range", "rounded_close", "concave_shape",
-            "run_same_events", "recovery_trajectory", "arbitrary_trajectory", "linear_finished_run"],
+            "run_same_events", "recovery_trajectory", "arbitrary_trajectory", "linear_finished_run",
+            "recovery_trajectory_dt", "arbitrary_trajectory_dt", "linear_finished_run_dt"],
     "C10": ["lifecycle_status", "lifecycle_same_event", "post_status", "status_edges", "status_kind_step", "status_timeline_step",
             "status_timeline", "shock_in_force", "pending_invisible", "prefix_event_free",
             "onScheduleDt_one", "status_timeline_step_dt", "status_timeline_dt", "shock_in_force_dt", "prefix_event_free_dt"],
@@ -73,7 +74,7 @@ MODULES["C08"] = ["Boario.Properties.C08", "Boario.Properties.Reach"]
 MODULES["C06"] = ["Boario.Properties.C06", "Boario.Properties.Reach"]
 MODULES["C11"] = ["Boario.Properties.C11", "Boario.Properties.C11Run", "Boario.Properties.LayoutThm", "Boario.Properties.Slices"]
 MODULES["C13"] = ["Boario.Properties.C13", "Boario.Properties.C13Run"]
-MODULES["C09"] = ["Boario.Properties.C09", "Boario.Properties.C09Run"]
+MODULES["C09"] = ["Boario.Properties.C09", "Boario.Properties.C09Run", "Boario.Properties.C09Dt"]
 MODULES["C10"] = ["Boario.Properties.C10", "Boario.Properties.C10Dt"]
 MODULES["C18"] = ["Boario.Properties.C18", "Boario.Properties.C18Run"]
 MODULES["C04"] = ["Boario.Properties.C04", "Boario.Properties.LayoutThm", "Boario.Properties.Slices"]
